@@ -121,7 +121,31 @@ def main():
     ppd = vlib.run([drive, "pnglexer", "-cases", pdp], timeout=600)
     if json.loads(ppd.stdout.strip().splitlines()[-1])["mismatches"] < 4:      # pd1: pngmeta only; pd2, pd3: both loaders
         raise vlib.Infra("pnglexer binding demonstration: a changed expectation was not reported")
+    # spec/WebpLexer.tla: webpmeta.extractMetadata at byte granularity, same binding
+    rw = vlib.tlc("WebpLexer", "WebpLexer.cfg", heap="1g", workers=4)
+    if rw.violated:
+        raise vlib.Infra("WebpLexer.tla: TLC reports a violation of the model's own invariants (%s)" % rw.violated)
+    wpath = os.path.join(out, "webplexer.ndjson")
+    with open(wpath, "w") as f:
+        for c in rw.printed:
+            f.write(json.dumps(c) + "\n")
+    pw = vlib.run([drive, "webplexer", "-cases", wpath], timeout=1800)
+    wlines = [json.loads(l) for l in pw.stdout.strip().splitlines()]
+    wsum = wlines[-1]
+    wmis = [l["mismatch"] for l in wlines if "mismatch" in l]
+    if not wsum.get("summary") or wsum["cases"] != len(rw.printed) or wsum["loads"] != 2 * len(rw.printed):
+        raise vlib.Infra("webplexer replay did not run all cases: %r" % wsum)
+    wd1 = json.loads(json.dumps(next(c for c in rw.printed if c["res"] == "ok" and c["icc"] == "q3")))
+    wd2, wd3 = dict(wd1, icc="err"), dict(wd1, w=wd1["h"], h=wd1["w"])
+    wd1["taken"] += 1           # as if the pad byte were read
+    wdp = os.path.join(out, "webplexer_demo.ndjson")
+    open(wdp, "w").write("".join(json.dumps(c) + "\n" for c in (wd1, wd2, wd3)))
+    pwd = vlib.run([drive, "webplexer", "-cases", wdp], timeout=600)
+    if json.loads(pwd.stdout.strip().splitlines()[-1])["mismatches"] < 5:      # wd1: webpmeta only; wd2, wd3: both loaders
+        raise vlib.Infra("webplexer binding demonstration: a changed expectation was not reported")
     ev = {"what": "spec/Extras.tla judged %d observations of the real code" % len(lines), "events_by_kind": kinds,
+          "webp_lexer": {"tlc_distinct_states": rw.distinct, "inputs_replayed": wsum["cases"], "loads_compared": wsum["loads"],
+                         "mismatches": wsum["mismatches"], "binding_demo": "three changed expectations reported"},
           "png_lexer": {"tlc_distinct_states": rp.distinct, "inputs_replayed": psum["cases"], "loads_compared": psum["loads"],
                         "mismatches": psum["mismatches"], "binding_demo": "three changed expectations reported"},
           "jpeg_lexer": {"tlc_distinct_states": rl.distinct, "sessions_replayed": lsum["cases"], "calls_compared": lsum["calls"],
@@ -141,7 +165,9 @@ def main():
         print("EXTRA-REJECT jpeglexer %s" % json.dumps(m)[:400])
     for m in pmis[:10]:
         print("EXTRA-REJECT pnglexer %s" % json.dumps(m)[:400])
-    if rejects or bmis or lmis or pmis:
+    for m in wmis[:10]:
+        print("EXTRA-REJECT webplexer %s" % json.dumps(m)[:400])
+    if rejects or bmis or lmis or pmis or wmis:
         return 1
     print("OK extras events=%d wall=%.1fs" % (len(lines), time.time() - t0))
     return 0
